@@ -3,6 +3,9 @@
 #include "core.hpp"
 #include "net.hpp"
 #include "models/queue_model.hpp"
+#include "models/pcap_reader.hpp"
+#include <sys/stat.h>
+#include <unistd.h>
 #include <deque>
 #include <functional>
 #include <set>
@@ -98,7 +101,8 @@ struct Tcp
 {
 	Plan const& plan;
 	Ctx& ctx;
-	bool const c05, c06, c20;
+	bool const c05, c06, c20, c19;
+	std::string pcap_path;
 	Net net;
 	std::unique_ptr<sim::simulation> sim;
 	std::unique_ptr<asio::io_context> nodeA, nodeB;
@@ -118,9 +122,10 @@ struct Tcp
 	error_code connect_ec[k_max_conns];
 	bool accept_done[k_max_conns] = {false, false, false};
 	int64_t total_delivered = 0;
+	bool port_pending[k_max_conns] = {false, false, false};
 
 	Tcp(Plan const& p, Ctx& c)
-		: plan(p), ctx(c), c05(p.prop == "C05"), c06(p.prop == "C06"), c20(p.prop == "C20")
+		: plan(p), ctx(c), c05(p.prop == "C05"), c06(p.prop == "C06"), c20(p.prop == "C20"), c19(p.prop == "C19")
 	{}
 
 	void fail(char const* cls, std::string const& m) { ctx.fail(cls, m); }
@@ -445,6 +450,7 @@ struct Tcp
 			int const g = s.gen;
 			ctx.tr.rec("connect", {s.conn, g}, {now_ns()});
 			s.port = -1; // known once async_connect has bound the socket
+			port_pending[s.conn] = true;
 			s.sock->async_connect(accept_ep[s.conn], [this, sp, g](error_code const& cec) {
 				++ctx.handlers;
 				ctx.tr.rec("connected", {sp->conn, cec.value()}, {now_ns()});
@@ -461,6 +467,11 @@ struct Tcp
 				start_read(*sp);
 				pump(*sp);
 			});
+			{
+				error_code lec;
+				tcp::endpoint const le = s.sock->local_endpoint(lec);
+				if (!lec) connector_ports[s.conn].insert(le.port());
+			}
 		};
 		if (delay > 0)
 		{
@@ -471,6 +482,7 @@ struct Tcp
 	}
 
 	bool accept_armed[k_max_conns] = {false, false, false};
+	std::set<int> connector_ports[k_max_conns]; // every port the connector of a connection ever used
 	void arm_accept(int c)
 	{
 		if (accept_armed[c] || !acceptors[c] || !acceptors[c]->is_open()) return;
@@ -669,7 +681,7 @@ struct Tcp
 			else if (opt == 2) { sa.set_option(boost::asio::detail::socket_option::integer<IPPROTO_IP, IP_MTU_DISCOVER>(IP_PMTUDISC_DONT), ec); state = 2; }
 			else if (opt == 3) { sa.set_option(boost::asio::detail::socket_option::boolean<IPPROTO_IP, IP_DONTFRAGMENT>(true), ec); state = 1; }
 			int64_t size = mtuAB + (o.b % 5) - 2; // MTU-2 .. MTU+2
-			if ((o.c % 4) == 1) size = 65535 - (o.b % 3);
+			if ((o.c % 4) == 1) size = (c19 ? 65507 : 65535) - (o.b % 3); // C19: sizes that fit one IPv4 packet
 			if ((o.c % 4) == 2) size = std::max<int64_t>(1, o.b % 3000);
 			if (size < 1) size = 1;
 			if (size > 65535) size = 65535;
@@ -693,6 +705,7 @@ struct Tcp
 		};
 		next();
 		sim->run();
+		if (!c20) { error_code cec; sb.close(cec); sa.close(cec); return; }
 		// loss-free route for this part: exactly the expected datagrams arrive, whole and in order
 		size_t gi = 0;
 		for (auto const& e : expected)
@@ -738,6 +751,15 @@ struct Tcp
 		net.trace_packets = plan.c("trace_packets", 1) != 0;
 
 		sim.reset(new sim::simulation(net));
+		if (c19)
+		{
+			char const* b = std::getenv("VERIF_BUILD");
+			std::string const dir = std::string(b && *b ? b : "/verif/build") + "/run";
+			mkdir((std::string(b && *b ? b : "/verif/build")).c_str(), 0755);
+			mkdir(dir.c_str(), 0755);
+			pcap_path = dir + "/capture-" + std::to_string(getpid()) + ".pcap";
+			sim->log_pcap(pcap_path.c_str());
+		}
 		nodeA.reset(new asio::io_context(*sim, addrA));
 		nodeB.reset(new asio::io_context(*sim, addrB));
 		for (int c = 0; c < nconn; ++c)
@@ -827,7 +849,7 @@ struct Tcp
 		ctx.hit("drop_notifications_seen_by_probes", qdrops);
 		ctx.nontrivial = total_delivered > 0 && (fired > 0 || qdrops > 0 || ctx.cnt.count("reconnect") || c20);
 
-		if (c20) udp_part();
+		if (c20 || c19) udp_part();
 
 		ctx.sim_ns = now_ns();
 		// teardown: objects before their contexts, contexts before the simulation
@@ -838,13 +860,88 @@ struct Tcp
 		}
 		nodeA.reset(); nodeB.reset();
 		sim.reset();
+		if (c19) { check_capture(); unlink(pcap_path.c_str()); }
+	}
+
+	// ------------------------------------------------------------ C19: the capture file
+	void check_capture()
+	{
+		model::PcapFile const f = model::read_pcap(pcap_path);
+		if (!f.ok) { fail("pcap.malformed", "capture file: " + f.error); return; }
+		if (f.ver_major != 2 || f.ver_minor != 4) fail("pcap.header", "pcap version is not 2.4");
+		if (f.linktype != 101) fail("pcap.header", "link type is " + std::to_string(f.linktype) + ", expected 101 (raw IP)");
+		if (f.snaplen < 65535) fail("pcap.header", "snaplen smaller than the largest packet");
+		// what the first-hop probes saw being put on the wire, in transmission order
+		std::vector<PktRec const*> wire;
+		for (auto const& ci : net.infos)
+			if (ci.label.rfind("out.", 0) == 0 && !ci.probes.empty())
+				for (auto const& r : ci.probes[0]->log)
+					if ((r.type == 5 && (r.overhead == 40 || r.overhead == 28)) || (r.type == 4 && r.overhead == 40)) wire.push_back(&r);
+		std::sort(wire.begin(), wire.end(), [](PktRec const* x, PktRec const* y) { return x->gseq < y->gseq; });
+		ctx.hit("pcap_records", f.records.size());
+		if (f.records.size() != wire.size())
+		{
+			fail(f.records.size() < wire.size() ? "pcap.missing_record" : "pcap.extra_record", "the capture holds " + std::to_string(f.records.size())
+				+ " records but " + std::to_string(wire.size()) + " UDP datagrams / TCP segments were put on the wire");
+			return;
+		}
+		std::map<std::tuple<uint32_t, int, uint32_t, int>, uint32_t> sent_bytes; // per direction of a connection
+		uint64_t prev_ts = 0;
+		int64_t const kA = addr_key(addrA), kB = addr_key(addrB);
+		for (size_t i = 0; i < wire.size(); ++i)
+		{
+			PktRec const& w = *wire[i];
+			model::PcapRecord const& r = f.records[i];
+			std::string const who = "record #" + std::to_string(i);
+			bool const is_udp = w.overhead == 28;
+			uint32_t const want_len = uint32_t(20 + (is_udp ? 8 : 20) + w.payload);
+			if (r.incl_len != want_len || r.orig_len != want_len || r.ip_total_len != want_len || r.payload_len != uint32_t(w.payload))
+			{ fail("pcap.length", who + ": lengths incl/orig/ip " + std::to_string(r.incl_len) + "/" + std::to_string(r.orig_len) + "/" + std::to_string(r.ip_total_len)
+				+ " do not match headers + " + std::to_string(w.payload) + " payload bytes"); return; }
+			if (r.protocol != (is_udp ? 17 : 6)) { fail("pcap.protocol", who + ": wrong IP protocol or records out of transmission order"); return; }
+			if (r.payload_hash != w.phash) { fail("pcap.payload", who + ": payload bytes differ from what was sent (or records out of transmission order)"); return; }
+			int64_t const src = w.from_addr;
+			int64_t const dst = src == kA ? kB : kA;
+			if (int64_t(r.src_ip) != src || int64_t(r.dst_ip) != dst) { fail("pcap.address", who + ": IP source/destination address is not the true one"); return; }
+			if (r.src_port != w.from_port) { fail("pcap.port", who + ": source port " + std::to_string(r.src_port) + ", sent from " + std::to_string(w.from_port)); return; }
+			if (is_udp)
+			{
+				if (r.dst_port != 6001) { fail("pcap.port", who + ": UDP destination port " + std::to_string(r.dst_port)); return; }
+				if (r.udp_len != 8 + w.payload) { fail("pcap.length", who + ": UDP length field"); return; }
+			}
+			else
+			{
+				bool dst_ok = false;
+				if (src == kA) dst_ok = r.dst_port >= 7000 && r.dst_port < 7000 + nconn && connector_ports[r.dst_port - 7000].count(r.src_port);
+				else dst_ok = r.src_port >= 7000 && r.src_port < 7000 + nconn && connector_ports[r.src_port - 7000].count(r.dst_port);
+				if (!dst_ok) { fail("pcap.port", who + ": TCP ports " + std::to_string(r.src_port) + " -> " + std::to_string(r.dst_port) + " match no connection of the program"); return; }
+				if (r.tcp_data_offset != 20) { fail("pcap.header", who + ": TCP data offset"); return; }
+				auto key = std::make_tuple(r.src_ip, int(r.src_port), r.dst_ip, int(r.dst_port));
+				uint32_t& sofar = sent_bytes[key];
+				if (r.tcp_seq != sofar)
+				{ fail("pcap.tcp.seq", who + ": TCP sequence number " + std::to_string(r.tcp_seq) + ", but " + std::to_string(sofar)
+					+ " payload bytes were transmitted before in that direction of the connection"); return; }
+				sofar += uint32_t(w.payload);
+				if (w.type == 4) ctx.hit("pcap_closing_segment");
+			}
+			uint64_t const sec = uint64_t(w.t / 1000000000), usec = uint64_t((w.t % 1000000000) / 1000);
+			if (r.ts_sec != 441794304u + sec || r.ts_usec != usec)
+			{ fail("pcap.timestamp", who + ": timestamp " + std::to_string(r.ts_sec) + "." + std::to_string(r.ts_usec) + " is not the capture epoch + virtual send time "
+				+ std::to_string(w.t) + " ns"); return; }
+			uint64_t const ts = uint64_t(r.ts_sec) * 1000000 + r.ts_usec;
+			if (ts < prev_ts) { fail("pcap.timestamp", who + ": timestamps decrease"); return; }
+			prev_ts = ts;
+		}
+		// retransmissions: the same (port, seq) seen more than once at the first hop
+		std::set<std::pair<int, uint64_t>> seen;
+		for (auto const* w : wire) if (w->overhead == 40 && !seen.insert({w->from_port, w->seq}).second) ctx.hit("pcap_retransmission");
 	}
 };
 
 struct TcpEngine : Engine
 {
 	std::string name() const override { return "tcp"; }
-	std::vector<std::string> props() const override { return {"C05", "C06", "C20"}; }
+	std::vector<std::string> props() const override { return {"C05", "C06", "C20", "C19"}; }
 
 	static void gen_hops(Plan& p, Rng& rng, std::string const& prefix, int n, bool finite_ok, int64_t min_cap, bool slow_ok)
 	{
@@ -868,7 +965,8 @@ struct TcpEngine : Engine
 	Plan generate(std::string const& prop, Rng& rng, int tier) override
 	{
 		Plan p;
-		bool const c05 = prop == "C05", c06 = prop == "C06", c20 = prop == "C20";
+		bool const c19 = prop == "C19";
+		bool const c05 = prop == "C05" || c19, c06 = prop == "C06", c20 = prop == "C20";
 		int mtu = 1475;
 		if (c20) { mtu = int(rng.pick(std::vector<int64_t>{64, 100, 576, 1000, 1474, 1475, 1476, 1500, 4000, 9000})); if (rng.chance(0.3)) mtu = int(rng.range(64, 9000)); }
 		else if (rng.chance(0.25)) mtu = int(rng.pick(std::vector<int64_t>{576, 1000, 1475, 1500, 4000}));
@@ -963,7 +1061,7 @@ struct TcpEngine : Engine
 				p.ops.push_back(w);
 			}
 		}
-		if (c20)
+		if (c20 || c19)
 		{
 			int const n = int(rng.range(0, 8));
 			for (int k = 0; k < n; ++k)
@@ -1069,6 +1167,12 @@ struct TcpEngine : Engine
 				"with finite queues payload flows one direction per phase and phases end at quiescent returns of run(); no fault sinks. At every quiescent "
 				"return delivered==accepted, no write pending, all offered bytes accepted; watchdog for livelock. distinct = distinct shape hash; "
 				"non-trivial = bytes were delivered and a queue tail-dropped at least one packet";
+		if (prop == "C19")
+			return "the C05 program generator (1-3 IPv4 TCP connections, both directions, finite queues and fault sinks causing retransmission, closes, reconnects) plus UDP "
+				"datagrams, with capture enabled; after the simulation is destroyed the file is parsed by an independent reader (models/pcap_reader.hpp) and compared record by "
+				"record with what the first-hop probes saw being transmitted: count, order, lengths, addresses, ports, payload hash, timestamp = capture epoch + virtual send time, "
+				"TCP sequence number = bytes previously transmitted in that direction. distinct = distinct shape hash; non-trivial = bytes were delivered and a fault fired, a queue "
+				"dropped or a socket was reused";
 		return "seeded path-MTU values 64-9000 for the address pair, TCP transfers in both directions with write sizes around multiples of the MTU, probes on "
 			"every hop (no segment above the MTU, every segment identical at every hop), and UDP sends of MTU-2..MTU+2 / 65535 / small with the "
 			"don't-fragment option never touched / set via IP_MTU_DISCOVER or IP_DONTFRAGMENT / cleared. distinct = distinct shape hash; non-trivial = bytes were delivered";
@@ -1076,6 +1180,7 @@ struct TcpEngine : Engine
 	int64_t budget(std::string const& prop, int tier) const override
 	{
 		if (prop == "C20") return tier ? 150000 : 6000;
+		if (prop == "C19") return tier ? 150000 : 8000;
 		return prop == "C06" ? (tier ? 400000 : 25000) : (tier ? 250000 : 10000);
 	}
 	std::vector<std::string> stub_components() const override
